@@ -806,6 +806,22 @@ def c30(scn, run):
             if [x[0], x[1]] in sn["to_hold"] and x not in hold_cmds and not (sn["hold_point"] is not None and x[0] > sn["hold_point"]):
                 return (f"cylc remove {list(x)} (an active task) left {list(x)} in the set of held instances: "
                         f"killing the job of the already removed task holds it")
+    # a command right after the removal must not see the erased history
+    erased, outs_of = {}, {}
+    for e in _tracked(run["trace"]):
+        if e["e"] == "output":
+            outs_of.setdefault(tuple(e["id"]), set()).update(_norm_out(o) for o in e["out"])
+            erased.get(tuple(e["id"]), set()).difference_update(_norm_out(o) for o in e["out"])
+        elif e["e"] == "cmd_remove":
+            for i in e["ids"]:
+                erased.setdefault(tuple(i), set()).update(outs_of.pop(tuple(i), set()))
+        elif e["e"] == "transient":
+            t = e["t"]
+            stale = sorted({_norm_out(o) for o in t["outputs"]} & erased.get(tuple(t["id"]), set()))
+            if stale:
+                return (f"{t['id']} was removed (history erased) but a cylc set command processed in the same main-loop "
+                        f"iteration still found its outputs {stale} recorded (the erasure is flushed to the database only at the "
+                        f"end of the iteration)")
     # a later incarnation of a removed instance starts from scratch
     seen_removed = set()
     for e in run["trace"]:
